@@ -96,9 +96,9 @@ def ws2dwcv(y, nodata, llas, robust, out, lopt):
                 # scale of the residuals of the valid cells that still carry weight
                 carry = w_temp != 0
                 mad = np.median(np.abs(r_arr[carry] - np.median(r_arr[carry])))
-                # residuals at rounding-noise level (constant or exactly linear data)
-                # carry no information: keep the weights instead of dividing by ~0
-                if mad > 1e-9 * np.max(np.abs(yv)):
+                # all residuals equal (constant or exactly linear data): nothing to
+                # reweight, and the studentised residuals would be 0/0
+                if mad > 0:
                     u_arr = r_arr / (1.4826 * mad * np.sqrt(1 - gamma.sum() / n))
 
                     new_weights = (1 - (u_arr / 4.685) ** 2) ** 2
@@ -106,8 +106,9 @@ def ws2dwcv(y, nodata, llas, robust, out, lopt):
 
                     new_weights[r_arr > 0] = 1
 
-                    # with fewer than two weighted cells the system is singular
-                    if ((w * new_weights) > 0).sum() > 1:
+                    # with fewer than two weighted cells the system is singular; non-finite
+                    # weights (zero hat-matrix term) cannot be used either
+                    if np.isfinite(new_weights).all() and ((w * new_weights) > 0).sum() > 1:
                         r_weights = new_weights
 
             robust_weights = w * r_weights
